@@ -7,7 +7,7 @@ import tempfile
 import time
 import z3
 
-Z3_MS = int(os.environ.get("PYVC_Z3_MS", "10000"))
+Z3_MS = int(os.environ.get("PYVC_Z3_MS", "40000"))
 CVC5_S = int(os.environ.get("PYVC_CVC5_S", "20"))
 
 
